@@ -502,6 +502,7 @@ func (ts *TableState) touch(x *Exec, k []*smt.Term) {
 		u(k)
 	}
 	ts.env.applyRowInvariant(x, ts, k)
+	ts.env.runOnTouch(x, ts)
 }
 
 func (ts *TableState) seq0(x *Exec) *smt.Term {
@@ -654,6 +655,8 @@ type Env struct {
 	Tables   map[string]*TableState
 	Order    []string
 	RowInv   map[string]FuncV
+	OnTouch  map[string][]FuncV
+	touchBusy bool
 	invBusy  int
 	Bank     *BankState
 	Ctx      *CtxState
@@ -663,7 +666,7 @@ type Env struct {
 }
 
 func newEnv(x *Exec) *Env {
-	return &Env{x: x, Tables: map[string]*TableState{}, RowInv: map[string]FuncV{}}
+	return &Env{x: x, Tables: map[string]*TableState{}, RowInv: map[string]FuncV{}, OnTouch: map[string][]FuncV{}}
 }
 
 var protoCache struct {
@@ -777,6 +780,23 @@ func (e *Env) applyRowInvariant(x *Exec, ts *TableState, k []*smt.Term) {
 		x.Unsupported("row invariant for %s must return bool", ts.Key)
 	}
 	x.Assume(x.B.Implies(ts.exists0(x, k), bv.T), "I-row "+ts.Meta.Name)
+}
+
+// runOnTouch calls the harness hooks registered for this table (not re-entrantly): they
+// instantiate cross-row invariants (sums) on the rows read so far.
+func (e *Env) runOnTouch(x *Exec, ts *TableState) {
+	if e.touchBusy || e.invBusy > 0 || x.merge != nil {
+		return
+	}
+	hooks := e.OnTouch[ts.Meta.ProtoPkg+"."+ts.Meta.Name]
+	if len(hooks) == 0 {
+		return
+	}
+	e.touchBusy = true
+	defer func() { e.touchBusy = false }()
+	for _, f := range hooks {
+		x.invokeValue(f, nil, nil)
+	}
 }
 
 func (e *Env) checkpoint() *envCheckpoint {
